@@ -214,6 +214,39 @@ Fixpoint its_close (t : T) (its : list aitem) (o : out) : out :=
   | AGroup _ _ _ kids :: r => its_close t r (lvs_close t (rev kids) o)
   end.
 
+(* ---------- specification: the whole run ---------- *)
+
+Definition limited (limit : option T) : bool :=
+  match limit with Some l => negb (tfalsy l) | None => false end.
+
+(* None = the budget of cycles was not enough *)
+Fixpoint spec_cycles (tk zb : T) (cycles : nat) (t : T) (its : list aitem) (o : out)
+         (limit : option T) (stop : T) : option (T * out) :=
+  match cycles with
+  | O => None
+  | S c =>
+    let '(its', o1) := its_pass tk zb t its o in
+    let t' := tadd t tk in
+    match its' with
+    | [] => Some (t', o_emit (o_done o1 0%N (Some true)) DoReturn 0%N t')
+    | _ => if limited limit && tleb stop t'
+           then Some (t', o_emit (its_close t' (rev its') o1) DoReturn 0%N t')
+           else spec_cycles tk zb c t' its' o1 limit stop
+    end
+  end.
+
+Definition out0 : out := {| o_ev := []; o_dn := upd (fun _ => None) 0%N (Some false) |}.
+
+Definition spec_run (tk zb : T) (cycles : nat) (limit : option T) (t0 : T) (gs : list gitem) : option (T * out) :=
+  let '(its, o) := gs_enter t0 gs out0 in
+  let limit' := option_map tabs limit in
+  let stop := tadd t0 (match limit' with Some l => l | None => tzero end) in
+  spec_cycles tk zb cycles t0 its o limit' stop.
+
+(* the leaf view determined by a specification result *)
+Definition view_of (ids : list id) (r : T * out) : list (ev T) * list (option bool) * T :=
+  (rev (o_ev (snd r)), map (o_dn (snd r)) (0%N :: ids), fst r).
+
 End Defs.
 
 Arguments leaf T : clear implicits.
